@@ -108,6 +108,9 @@ func runC07(c *core.Ctx) {
 		}
 		return nil
 	}
+	if ad := load("adler32"); ad != nil {
+		runC07Adler(c, ad)
+	}
 	total := 0
 	checkTable := func(p *WPkg, name string, rows, cols int, want func(k, i int) *big.Int, what string) {
 		anchor := "std/" + p.Name + " const " + name
